@@ -578,6 +578,27 @@ fn chunks_of(c: &BCase) -> Vec<ByteTendril> {
         .collect()
 }
 
+/// The three ways the provided `TendrilSink` methods let a caller hand chunks over: process() for
+/// each and finish(); process() for all but the last and `one(last)`; `from_iter(all)`.
+fn feed_all<S: TendrilSink<fmt::Bytes>>(mut d: S, mut chunks: Vec<ByteTendril>, how: usize) -> S::Output {
+    match how % 3 {
+        1 if !chunks.is_empty() => {
+            let last = chunks.pop().unwrap();
+            for ch in chunks {
+                d.process(ch);
+            }
+            d.one(last)
+        },
+        2 => d.from_iter(chunks),
+        _ => {
+            for ch in chunks {
+                d.process(ch);
+            }
+            d.finish()
+        },
+    }
+}
+
 fn model_sink() -> ModelSink {
     ModelSink::new(SinkPolicy { attach_ok: false, allow_shadow: true, record_calls: false, emulate_never_mirror: false }, None, false)
 }
@@ -623,19 +644,13 @@ fn run(c: &BCase, stats: &mut Stats) -> Result<u64, Violation> {
                 Delivery::Process { .. } => {
                     let chunks = chunks_of(c);
                     stats.add("F8_byte_chunks_delivered", chunks.len() as u64);
+                    let how = chunks.len() + c.bytes.len() / 2;
+                    stats.inc(["chunks_handed_over_by_process_finish", "chunks_handed_over_by_process_then_one", "chunks_handed_over_by_from_iter"][how % 3]);
                     if c.encoding == "utf-8" && c.decoder_kind == 0 && c.bytes.len() % 2 == 0 {
-                        let mut d = Utf8LossyDecoder::new(sink);
-                        for ch in chunks {
-                            d.process(ch);
-                        }
-                        d.finish();
+                        feed_all(Utf8LossyDecoder::new(sink), chunks, how);
                     } else {
                         let enc = Encoding::for_label(c.encoding.as_bytes()).expect("label");
-                        let mut d = make_lossy(enc, c.decoder_kind, sink);
-                        for ch in chunks {
-                            d.process(ch);
-                        }
-                        d.finish();
+                        feed_all(make_lossy(enc, c.decoder_kind, sink), chunks, how);
                     }
                 },
                 Delivery::FromFile { .. } => {
@@ -727,18 +742,11 @@ fn run(c: &BCase, stats: &mut Stats) -> Result<u64, Violation> {
                 Delivery::Process { .. } => {
                     let chunks = chunks_of(c);
                     stats.add("F8_byte_chunks_delivered", chunks.len() as u64);
+                    let how = chunks.len() + c.bytes.len() / 2;
                     if is_html {
-                        let mut p = html5ever::driver::parse_document(model_sink(), Default::default()).from_utf8();
-                        for ch in chunks {
-                            p.process(ch);
-                        }
-                        Ok(p.finish())
+                        Ok(feed_all(html5ever::driver::parse_document(model_sink(), Default::default()).from_utf8(), chunks, how))
                     } else {
-                        let mut p = xml5ever::driver::parse_document(model_sink(), Default::default()).from_utf8();
-                        for ch in chunks {
-                            p.process(ch);
-                        }
-                        Ok(p.finish())
+                        Ok(feed_all(xml5ever::driver::parse_document(model_sink(), Default::default()).from_utf8(), chunks, how))
                     }
                 },
                 Delivery::FromFile { .. } => {
@@ -950,7 +958,7 @@ impl World for BytesWorld {
         emit(&greedy_min(c, &candidates, &mut fails, budget))
     }
     fn rule(&self) -> String {
-        "case = (byte string generated for the target encoding: valid text spliced with every ill-formed UTF-8 class, lone lead bytes, ISO-2022-JP escapes, UTF-16 lone surrogates / odd lengths, BOMs, truncated tails; one of 40 encodings; pipeline {LossyDecoder/Utf8LossyDecoder + recording sink | html from_utf8() parser | xml from_utf8() parser}; delivery = process() chunks cut at arbitrary byte offsets (owned or shared-parent tendrils) or read_from(SimReader) with short reads, Interrupted and, in separate fault cases, one hard error); non-trivial = non-empty input with at least one cut or a read_from delivery; distinct = distinct hash of the whole case".into()
+        "case = (byte string generated for the target encoding: valid text spliced with every ill-formed UTF-8 class, lone lead bytes, ISO-2022-JP escapes, UTF-16 lone surrogates / odd lengths, BOMs whole and cut short, truncated tails; one case in 150 is 4..192 KiB of multi-byte characters; one of 40 encodings; pipeline {LossyDecoder/Utf8LossyDecoder + recording sink | html from_utf8() parser | xml from_utf8() parser}; delivery = process() chunks cut at arbitrary byte offsets (owned or shared-parent tendrils) or read_from(SimReader) with short reads, Interrupted and, in separate fault cases, one hard error, or from_file on a scratch file / a size-lying kernel pseudo-file; in one decoder case in eight the sink re-enters the decoders from inside a callback); non-trivial = non-empty input with at least one cut or a read_from delivery; distinct = distinct hash of the whole case".into()
     }
     fn components(&self) -> Value {
         json!({"real": ["tendril::stream::Utf8LossyDecoder", "tendril::stream::LossyDecoder (decode_to_sink)", "tendril::utf8_decode", "TendrilSink::read_from", "html5ever::driver::Parser::from_utf8", "xml5ever::driver::XmlParser::from_utf8", "html5ever / xml5ever parsers behind them"],
